@@ -32,7 +32,7 @@ Param(addr) ==
     [] addr = "/po" -> Scalar("po", "o", 0 - NoBound, NoBound) [] addr = "/ps" -> Scalar("ps", "s", 0, 7) [] addr = "/preset" -> Scalar("preset", "i", 0, 2)
     [] addr = "/dep" -> Scalar("dep", "i", 0, 100) [] addr = "/sub_on" -> Scalar("sub_on", "T", 0, 0) [] addr = "/palloc" -> Scalar("palloc", "T", 0, 0)
     [] addr = "/ai0" -> Elem("ai", 1, "I", 0, 100) [] addr = "/ai1" -> Elem("ai", 2, "I", 0, 100) [] addr = "/ai2" -> Elem("ai", 3, "I", 0, 100)
-    [] addr = "/af0" -> Elem("af", 1, "f", 0 - 4, 4) [] addr = "/af1" -> Elem("af", 2, "f", 0 - 4, 4) [] addr = "/af2" -> Elem("af", 3, "f", 0 - 4, 4)
+    [] addr = "/af0" -> Elem("af", 1, "f", 0 - 2, 3) [] addr = "/af1" -> Elem("af", 2, "f", 0 - 2, 3) [] addr = "/af2" -> Elem("af", 3, "f", 0 - 2, 3)
     [] addr = "/at0" -> Elem("at", 1, "T", 0, 0) [] addr = "/at1" -> Elem("at", 2, "T", 0, 0)
     [] addr = "/sub/si" -> InSub("sub", 0, SubDef[1]) [] addr = "/sub/sf" -> InSub("sub", 0, SubDef[2]) [] addr = "/sub/st" -> InSub("sub", 0, SubDef[3])
     [] addr = "/subs0/si" -> InSub("subs", 1, SubDef[1]) [] addr = "/subs0/sf" -> InSub("subs", 1, SubDef[2]) [] addr = "/subs0/st" -> InSub("subs", 1, SubDef[3])
